@@ -519,6 +519,7 @@ def apply_r29(mt, log):
         mt.replace(m.start(), c1 + 1 + am.end(), new)
         log.append(('R29', 'alt((map(tag|char, ..) x%d))(%s) => first matching prefix wins' % (len(arms), am.group(1))))
     for rx, rep, what in ((r"\bchar\(('(?:[^'\\]|\\.)')\)\((\w+)\)", r'nom::__char_p(\2, \1)', "char('c')(i)"),
+                          (r'\bone_of\(("(?:[^"\\]|\\.)*")\)\((\w+)\)', r'nom::__one_of(\2, \1)', 'one_of("..")(i)'),
                           (r'\bopt\((\w+)\)\((\w+)\)', r'nom::__opt(\1(\2), \2)', 'opt(f)(i)')):
         n_ = len(re.findall(rx, mt.text))
         if n_:
